@@ -165,12 +165,22 @@ func checkC18(c *ev.Ctx) {
 			continue
 		}
 		var buf bytes.Buffer
-		w, err := xz.WriterConfig{DictCap: dc}.NewWriter(&buf)
+		// the other configuration dimensions must not influence the declared size
+		cfg := xz.WriterConfig{DictCap: dc}
+		switch i % 4 {
+		case 1:
+			cfg.BlockSize = int64(r.Pick(1, 100, 4096, dc/2, dc-1))
+		case 2:
+			cfg.BufSize, cfg.BlockSize = r.Pick(273, 65536), int64(dc)+1
+		case 3:
+			cfg.CheckSum, cfg.BlockSize = xz.SHA256, int64(r.Range(1, dc))
+		}
+		w, err := cfg.NewWriter(&buf)
 		if err != nil {
 			c.Inconclusive(fmt.Sprintf("NewWriter DictCap=%d: %v", dc, err))
 			continue
 		}
-		w.Write([]byte("x"))
+		w.Write([]byte("xyz"))
 		w.Close()
 		b := buf.Bytes()
 		want := 0
